@@ -85,6 +85,9 @@ Topos(kd) ==
   \cup (IF kd.k # "glob" THEN {}    \* (glob2 only with plain paths)
         ELSE {[t |-> "gdict", hasp |-> TRUE, p |-> p, sub |-> s] :
                 p \in {<<"x">>, <<UP, "y">>, <<"x", "w">>}, s \in GlobSubMaps(kd)})
+  \* a leaf port wired by a dictionary that only names its node ({'_path': p})
+  \cup (IF kd.k # "leaf" THEN {}
+        ELSE {[t |-> "dict", hasp |-> TRUE, p |-> p, sub |-> <<>>] : p \in {<<"x">>, <<UP, "y">>}})
   \* (the constructor does not accept a dictionary topology for an output
   \*  port: that combination is outside the domain)
   \cup (IF Children(kd) = {} \/ kd.k = "output" THEN {}
